@@ -28,6 +28,11 @@ EXTRA = [
     "select (a), (b + 1) from t1 where (c) = 1",
     "select `order`, t.`select` from t as t",
     "create table t (a int, b text, c serial)",
+    # aliases that contain a dot (attached by the parser after construction, so a constructor never sees them)
+    'select a as "x.y", b x.y, c as `p.q` from t as "s.t"',
+    'select * from int1.t1 as "d.e" join mindsdb.pred.3 as "m.v"',
+    "delete from t where a in (select b as 'x.y' from u as \"v.w\")",
+    'select f(a) as "f.g", (select 1) as "h.i" from t',
 ]
 
 
@@ -206,7 +211,11 @@ CROSS_SQL = ['select * from int1.t1 as t join mindsdb.pred as m', 'select t.a, m
              'select * from int1.t1 as t join int2.t2 as u on t.a = u.a', 'select * from int1.t1 as t join mindsdb.pred as m limit 3',
              'select * from int1.t1 where a in (select a from int2.t2)', 'select a from int1.t1 union select a from int2.t2',
              'delete from int1.t1 where a = 1', 'insert into int1.t1 (a) select a from int2.t2',
-             'update int1.t1 set a = 1 from (select a from int2.t2) as s where t1.a = s.a', 'select t.a as x, t.b from int1.t1 as t']
+             'update int1.t1 set a = 1 from (select a from int2.t2) as s where t1.a = s.a', 'select t.a as x, t.b from int1.t1 as t',
+             # statements whose printed form is long (several hundred characters): a difference in the LAST item must count
+             'select ' + ', '.join('c%d + 1' % i for i in range(70)) + ' from int1.t1',
+             'create table int1.t9 (' + ', '.join('c%d varchar(10)' % i for i in range(50)) + ')',
+             'select a from int1.t1 where ' + ' and '.join('c%d = %d' % (i, i) for i in range(60)) + ' and (c99 = 1 or c98 = 2)']
 
 
 def _cross_case(sql):
@@ -234,6 +243,11 @@ def _cross_case(sql):
     variants = [sql, sql_case]
     for pat in (r'\swhere\s.*$', r'\slimit\s+\d+\s*$', r'\son\s+[\w.]+\s*=\s*[\w.]+'):
         v_ = _re.sub(pat, '', sql, flags=_re.I)
+        if v_ != sql and v_ not in variants:
+            variants.append(v_)
+    # ... and with one late detail changed: the last select target in parentheses, the last column's length, the last condition
+    for pat, rep in ((r', ([^,()]+) from ', r', (\1) from '), (r'varchar\(10\)\)$', 'varchar(20))'), (r' and \((c99 = 1 or c98 = 2)\)$', r' and \1')):
+        v_ = _re.sub(pat, rep, sql, count=1)
         if v_ != sql and v_ not in variants:
             variants.append(v_)
     objs = []
